@@ -78,8 +78,29 @@ def main(argv=None):
     exp_path = os.path.join(VERIF, "expected", "%s.json" % prop)
     expected = json.load(open(exp_path)) if os.path.exists(exp_path) else {}
 
-    crashed = [r for r in results if r["crashed"]]
-    for r in crashed:
+    crashed = []
+    ring_stopped = []
+    for r in results:
+        if not r["crashed"]:
+            continue
+        exp_u = expected.get("units", {}).get(r["unit"], {})
+        changed = exp_u.get("files") is not None and exp_u.get("files") != r["files"]
+        if changed and r["mode"] == "R":
+            # a native ring that crashed or was stopped by its time / memory limit on CHANGED source: its bounded exploration is
+            # lost on this tree; neither a verdict nor a tool error (a traceback or timeout is never mapped to a violation)
+            print("RING-STOPPED unit=%s on changed source: %s" % (r["unit"], r["crashed"].strip().splitlines()[-1][:300]))
+            ring_stopped.append(r["unit"])
+            r["crashed"] = None
+            continue
+        if changed and r["mode"] != "R":
+            # a proof unit whose harness cannot follow CHANGED source: the proof is lost on this tree (not a verdict and not
+            # a tool error; DESIGN 5.4).  It becomes an unsupported obligation, so the native rings are escalated to decide.
+            r["obligations"].append(dict(name="%s:supported-subset" % r["unit"], unit=r["unit"], kind="unsupported", path=0,
+                                         status="unknown", solver="front-end", seconds=0.0, expect="proved",
+                                         detail="UNSUPPORTED harness exception on changed source\n%s" % r["crashed"][-1500:]))
+            r["crashed"] = None
+            continue
+        crashed.append(r)
         print("TOOL-ERROR unit=%s\n%s" % (r["unit"], r["crashed"]))
     n_obl = sum(len(r["obligations"]) for r in results)
     n_eval = sum(r["evaluations"] for r in results)
@@ -229,7 +250,8 @@ def do_pin(prop, results, exp_path):
 
 
 def write_evidence(prop, tier, seed, results, violations, known, undecided, wall, proof_lost=()):
-    os.makedirs(os.path.join(VERIF, "evidence"), exist_ok=True)
+    evdir = os.environ.get("PYVC_EVIDENCE_DIR") or os.path.join(VERIF, "evidence")     # override: development dry runs only
+    os.makedirs(evdir, exist_ok=True)
     proof_units = [r for r in results if not r["bounded"]]
     bounded_units = [r for r in results if r["bounded"]]
     obl = [o for r in proof_units for o in r["obligations"] if o["expect"] == "proved"]
@@ -294,7 +316,7 @@ def write_evidence(prop, tier, seed, results, violations, known, undecided, wall
     ev = dict(property_id=prop, tier=tier, seed=seed, level=level, coverage=cov,
               assumptions=assumptions + ["numpy-2 compatibility shim installed in the harness process (numpy.float_, numpy.in1d)"],
               wall_s=round(wall, 2), violations=len({v[0] for v in violations}))
-    with open(os.path.join(VERIF, "evidence", "%s.json" % prop), "w") as f:
+    with open(os.path.join(evdir, "%s.json" % prop), "w") as f:
         json.dump(ev, f, indent=1, default=str)
 
 
